@@ -47,7 +47,7 @@ CHECKS["C03"] = dict(
 CHECKS["C13"] = dict(
     level="exploration",
     technique="runtime monitoring: set-semantics reference model vs Prefix.Apply over bounded-exhaustive permutations of an address pool plus random lists",
-    rule="all ordered selections of ≤3 (quick) / ≤4 (thorough) addresses from a 14-address pool (ULA/GUA/LL/IPv4, /48 /64 /128, each flag, two hosts per /64), each also with a duplicated entry, "
+    rule="all ordered selections of ≤4 addresses from a 14-address pool (ULA/GUA/LL/IPv4, /48 /64 /128, each flag, two hosts per /64), each also with a duplicated entry, "
          "plus seeded random lists of 1–40 addresses and the failing-source case; non-trivial = list of ≥2 addresses; distinct = the ordered list",
     exhaustive={"quick": True, "thorough": True},
     assumptions=["addresses are injected through Prefix.Addrs; the rtnetlink decoding of flags is exercised by tier R (thorough)"],
@@ -56,7 +56,7 @@ CHECKS["C13"] = dict(
 CHECKS["C14"] = dict(
     level="exploration",
     technique="runtime monitoring: total-order reference model (min of eligible set) vs RDNSS.Apply over bounded-exhaustive permutations plus random lists",
-    rule="all ordered selections of ≤3 (quick) / ≤4 (thorough) addresses from a 16-address pool covering class × stability source × exclusion flag, each also with a duplicate, "
+    rule="all ordered selections of ≤4 addresses from a 16-address pool covering class × stability source × exclusion flag, each also with a duplicate, "
          "× 4 static server lists, plus random lists of 1–40 addresses; non-trivial = ≥2 addresses; distinct = ordered list",
     exhaustive={"quick": True, "thorough": True},
     assumptions=["a static server equal to the picked address is kept out of the workload (don't-care)"],
@@ -65,7 +65,7 @@ CHECKS["C14"] = dict(
 CHECKS["C15"] = dict(
     level="exploration",
     technique="runtime monitoring: maximal-non-overlapping-set reference model vs Route.Apply over bounded-exhaustive permutations plus random dumps",
-    rule="all ordered selections of ≤3 (quick) / ≤4 (thorough) routes from a 16-route pool (nested prefixes with equal and different base addresses, /128s, ::/0, IPv4), each also with a duplicate, "
+    rule="all ordered selections of ≤4 routes from a 16-route pool (nested prefixes with equal and different base addresses, /128s, ::/0, IPv4), each also with a duplicate, "
          "plus random dumps of 1–30 routes; non-trivial = ≥2 routes; distinct = ordered list",
     exhaustive={"quick": True, "thorough": True},
     assumptions=["routes are injected through Route.Routes"],
